@@ -122,11 +122,51 @@ fn make_pool(rng: &mut Rng, ctx: &mut Ctx) -> Vec<Entry> {
             }
         }
     }
+    // (g) length ladder: a byte-aligned text message for every body length 9..=264 whose last byte ends in 1 bits,
+    // so that a predecessor of every length (not just the lengths the other entries happen to have) is available
+    for n in 0..=255usize {
+        if let Some(m) = ladder_message(n) {
+            add(&mut pool, m, "pool_length_ladder_1029", ctx);
+        }
+    }
     // (f) no wire form: fail at the first step
     add(&mut pool, Message::Empty, "pool_no_wire_form", ctx);
     add(&mut pool, Message::Corrupt, "pool_no_wire_form", ctx);
     add(&mut pool, Message::MsgNotSupported(rtcm_rs::msg::message::MsgNotSupportedT { message_number: 4000 }), "pool_no_wire_form", ctx);
     pool
+}
+
+/// a 1029 message whose text is `n` bytes long: body = 9 + n bytes, byte aligned, last byte 0x7F or 0xBF
+fn ladder_message(n: usize) -> Option<Message> {
+    let mut pick = None;
+    'o: for c3 in 0..=85usize {
+        for c2 in 0..=127usize {
+            if 3 * c3 + 2 * c2 <= n && (n - 3 * c3 - 2 * c2) + c2 + c3 <= 127 {
+                pick = Some((n - 3 * c3 - 2 * c2, c2, c3));
+                break 'o;
+            }
+        }
+    }
+    let (c1, c2, c3) = pick?;
+    let mut text: Vec<u8> = vec![0x7F; c1];
+    for _ in 0..c2 {
+        text.extend_from_slice(&[0xC3, 0xBF]);
+    }
+    for _ in 0..c3 {
+        text.extend_from_slice(&[0xEF, 0xBF, 0xBF]);
+    }
+    let mut p = vec![0u8; 9 + n];
+    bits::write(&mut p, 0, 12, 1029);
+    bits::write(&mut p, 12, 12, 0xFFF);
+    bits::write(&mut p, 24, 16, 0xFFFF);
+    bits::write(&mut p, 40, 17, 86399);
+    bits::write(&mut p, 57, 7, (c1 + c2 + c3) as u128);
+    bits::write(&mut p, 64, 8, n as u128);
+    p[9..].copy_from_slice(&text);
+    match crate::codec::decode(&crc::frame(&p)) {
+        Ok(Some(m)) if m.number() == Some(1029) => Some(m),
+        _ => None,
+    }
 }
 
 /// index >= GEN_BASE in a history stands for a call of the other public build entry point,
@@ -303,6 +343,23 @@ pub fn run(p: &Params) -> Outcome {
         let failing: Vec<usize> = (0..pool.len()).filter(|&i| pool[i].fresh.is_err()).collect();
         let mut soak = MessageBuilder::new();
         let mut soak_calls: u64 = 0;
+        // every target after a successful build of every body length 9..=264 (the ladder), alone and after a failure
+        let ladder: Vec<usize> = (0..pool.len()).filter(|&i| pool[i].label == "pool_length_ladder_1029" && pool[i].fresh.is_ok()).collect();
+        ctx.max("length_ladder_entries", ladder.len() as f64);
+        for target in (0..pool.len()).filter(|t| t % _nw == w) {
+            if ctx.saturated() {
+                break;
+            }
+            for &l in ladder.iter() {
+                ctx.count("ladder_histories");
+                run_history(ctx, &pool, &[l], target);
+            }
+            // and right after each failing entry (a refused message leaves its partial payload behind)
+            for &f in failing.iter() {
+                ctx.count("failure_then_target_histories");
+                run_history(ctx, &pool, &[f], target);
+            }
+        }
         for i in 0..per {
             let len = match rng.below(6) {
                 0 => 1,
@@ -336,14 +393,15 @@ pub fn run(p: &Params) -> Outcome {
         ctx.count_n("calls_on_long_lived_builders", soak_calls);
     });
     total.max("calls_on_the_longest_lived_builder", 0.0);
-    for k in ["pool_late_failing_biased_field", "pool_decoded_from_all_ones_max_payload", "histories_where_stale_bits_would_be_visible", "histories_with_failed_predecessor", "pool_entries_that_fail_to_build"] {
+    total.max("length_ladder_entries", 0.0);
+    for k in ["ladder_histories", "failure_then_target_histories", "pool_late_failing_biased_field", "pool_decoded_from_all_ones_max_payload", "histories_where_stale_bits_would_be_visible", "histories_with_failed_predecessor", "pool_entries_that_fail_to_build"] {
         if total.get(k) == 0 {
             total.inconclusive(format!("{} never observed", k));
         }
     }
     Outcome {
         ctx: total,
-        rule: "history = 1..50 build calls on one MessageBuilder drawn from a pool (valid messages of every type, messages decoded from all-ones maximum-length payloads, hostile decodes, mutants that fail part-way, late-failing biased fields, no-wire-form variants) followed by a target; oracle: bytes and Ok/Err class equal a fresh builder's; non-trivial = at least one longer-than-target or failed predecessor; distinct by (history, target) hash".into(),
+        rule: "history = 1..50 build calls on one MessageBuilder drawn from a pool (valid messages of every type, messages decoded from all-ones maximum-length payloads, hostile decodes, mutants that fail part-way, late-failing biased fields, no-wire-form variants, a 1029 text message for every body length 9..=264) followed by a target; additionally every pool entry as target right after every ladder entry and right after every failing entry; oracle: bytes and Ok/Err class equal a fresh builder's; non-trivial = at least one longer-than-target or failed predecessor; distinct by (history, target) hash".into(),
         exhaustive: false,
         extra: json!({}),
     }
